@@ -76,6 +76,22 @@ def function_set(case, sp, specs):
     return tp.domains.CustomFunctionSet(sp["fspace"], data, f)
 
 
+def collection(case, sp, specs, parts=2):
+    """The same functions as a sum of `parts` function sets of unequal sizes."""
+    parts = max(1, min(int(parts), len(specs)))
+    if parts == 1:
+        return function_set(case, sp, specs)
+    # unequal contiguous chunks: the first gets the remainder
+    base = len(specs) // parts
+    sizes = [base + (len(specs) - base * parts)] + [base] * (parts - 1)
+    res, j = None, 0
+    for sz in sizes:
+        fs = function_set(case, sp, specs[j:j + sz])
+        res = fs if res is None else res + fs
+        j += sz
+    return res
+
+
 def disc_values(case, sp, specs):
     """Our own discretisation: (F, D, e) tensor of the functions at the sampler's points."""
     pts = sp["disc"].sample_points().as_tensor  # (D,1) static grid
@@ -133,16 +149,12 @@ def run_c09(case):
                     elif how == "functionset":
                         arg = function_set(case, sp, specs)
                     else:
-                        h = max(1, len(specs) // 2)
-                        if len(specs) < 2:
-                            arg = function_set(case, sp, specs)
-                        else:
-                            arg = function_set(case, sp, specs[:h]) + function_set(case, sp, specs[h:])
+                        arg = collection(case, sp, specs, op.get("parts", 2))
                     if kind == "fix":
                         net.fix_branch_input(arg)
                         twin.fix_branch_input(arg if how not in ("functionset", "collection") else (
-                            function_set(case, sp2, specs) if how == "functionset" or len(specs) < 2 else
-                            function_set(case, sp2, specs[:max(1, len(specs) // 2)]) + function_set(case, sp2, specs[max(1, len(specs) // 2):])))
+                            function_set(case, sp2, specs) if how == "functionset" else
+                            collection(case, sp2, specs, op.get("parts", 2))))
                         current = specs
                         log.append(["fix", how, len(specs)])
                         continue
